@@ -5,6 +5,7 @@ import (
 	"fmt"
 	"go/constant"
 	"go/types"
+	"hash/fnv"
 	"sort"
 	"strconv"
 
@@ -24,6 +25,98 @@ type Env struct {
 	C *report.Ctx
 
 	builders map[*ssa.Function]*ir.Builder
+	callers  map[*ssa.Function]*callerInfo
+}
+
+// callerInfo: who calls a function statically, and whether the function is
+// also used as a value (stored, passed, bound as a method value), in which
+// case its callers are not all known.
+type callerInfo struct {
+	Callers []*ssa.Function
+	AsValue bool
+}
+
+// callersOf indexes the static call sites of every module function.
+func (e *Env) callersOf(fn *ssa.Function) *callerInfo {
+	if e.callers == nil {
+		e.callers = map[*ssa.Function]*callerInfo{}
+		get := func(f *ssa.Function) *callerInfo {
+			ci := e.callers[f]
+			if ci == nil {
+				ci = &callerInfo{}
+				e.callers[f] = ci
+			}
+			return ci
+		}
+		for _, caller := range e.F.Effects().All {
+			for _, b := range caller.Blocks {
+				for _, in := range b.Instrs {
+					var inCallPos ssa.Value
+					if ci, ok := in.(ssa.CallInstruction); ok {
+						if callee := ci.Common().StaticCallee(); callee != nil {
+							if _, isClosure := ci.Common().Value.(*ssa.MakeClosure); !isClosure {
+								inCallPos = ci.Common().Value
+							}
+							info := get(callee)
+							seen := false
+							for _, c := range info.Callers {
+								if c == caller {
+									seen = true
+								}
+							}
+							if !seen {
+								info.Callers = append(info.Callers, caller)
+							}
+						}
+					}
+					for _, op := range in.Operands(nil) {
+						if op == nil || *op == nil {
+							continue
+						}
+						if f, ok := (*op).(*ssa.Function); ok && (*op) != inCallPos {
+							get(f).AsValue = true
+						}
+					}
+				}
+			}
+		}
+	}
+	if ci := e.callers[fn]; ci != nil {
+		return ci
+	}
+	return &callerInfo{}
+}
+
+// privateTo: fn is an unexported, top-level module function that is never used
+// as a value and whose every static caller satisfies base or is itself
+// privateTo base: it runs only on behalf of the base functions.
+func (e *Env) privateTo(fn *ssa.Function, base func(*ssa.Function) bool) bool {
+	return e.privateToRec(fn, base, map[*ssa.Function]bool{})
+}
+
+func (e *Env) privateToRec(fn *ssa.Function, base func(*ssa.Function) bool, busy map[*ssa.Function]bool) bool {
+	obj, _ := fn.Object().(*types.Func)
+	if obj == nil || obj.Exported() || fn.Parent() != nil || fn.Synthetic != "" {
+		return false
+	}
+	if busy[fn] {
+		return true // a cycle among helpers adds no outside caller
+	}
+	busy[fn] = true
+	defer delete(busy, fn)
+	ci := e.callersOf(fn)
+	if ci.AsValue || len(ci.Callers) == 0 {
+		return false
+	}
+	for _, c := range ci.Callers {
+		if c == fn || base(c) {
+			continue
+		}
+		if !e.privateToRec(c, base, busy) {
+			return false
+		}
+	}
+	return true
 }
 
 type RuleFunc func(e *Env)
@@ -186,4 +279,20 @@ func (e *Env) inlineHelpers(except ...*types.Func) func(*ssa.Function) bool {
 		}
 		return true
 	}
+}
+
+// pathName names one path of a function by the conditions it assumes (not by the position of its return
+// statement: several paths may share one after a refactoring, and the number of instances must not depend on that).
+func (e *Env) pathName(who string, lf *ir.Leaf) string {
+	gs := guardString(lf)
+	if gs == "" {
+		gs = "unconditional"
+	}
+	h := fnv.New32a()
+	h.Write([]byte(gs))
+	short := gs
+	if len(short) > 90 {
+		short = short[:90] + "..."
+	}
+	return fmt.Sprintf("%s path {%s}#%08x returning at %s", who, short, h.Sum32(), e.P.Pos(lf.Pos))
 }
